@@ -523,6 +523,7 @@ Proof.
   destruct (Z.leb_spec (len arbiters) index); [reflexivity|].
   destruct (validate && existsb (Z.eqb index) seen); [reflexivity|].
   destruct (idx_ok arbiters index) as [a Ha]; [lia|]. rewrite Ha. cbn [bind].
+  destruct (a =? 0); [reflexivity|].
   apply IH. exact Hr.
 Qed.
 
@@ -530,6 +531,134 @@ Qed.
 Lemma schnorr_withdraw_signers_np validate arbiters signers :
   Forall (fun s => 0 <= s) signers -> np (schnorr_withdraw_signers validate arbiters signers).
 Proof. intros H. unfold schnorr_withdraw_signers. apply signer_loop_np. exact H. Qed.
+
+Lemma withdraw_programs_np redeem codes : np (withdraw_programs redeem codes).
+Proof.
+  induction codes as [|c rest IH]; cbn [withdraw_programs]; [reflexivity|].
+  apply np_bind; [apply is_schnorr_np|]. intros s _.
+  destruct s; [|reflexivity]. destruct (bytes_eqb c redeem); [exact IH|reflexivity].
+Qed.
+
+Lemma schnorr_withdraw_np validate arbiters signers agg_ok redeem codes :
+  Forall (fun s => 0 <= s) signers ->
+  np (schnorr_withdraw validate arbiters signers agg_ok redeem codes).
+Proof.
+  intros H. unfold schnorr_withdraw.
+  apply np_bind; [apply schnorr_withdraw_signers_np; exact H|]. intros l _.
+  destruct (negb l); [reflexivity|]. destruct (negb agg_ok); [reflexivity|].
+  apply withdraw_programs_np.
+Qed.
+
+(* TransferCrossChainAsset V0 *)
+Lemma idx_in {A} (l : list A) i a : idx l i = Ok a -> In a l.
+Proof.
+  unfold idx. destruct (i <? 0); [discriminate|].
+  destruct (nth_error l (Z.to_nat i)) eqn:E; [|discriminate].
+  intros H. inversion H; subst. eapply nth_error_In; exact E.
+Qed.
+
+Lemma v0_index_loop_bound n idxs : forall seen,
+  v0_index_loop n idxs seen = true -> Forall (fun k => k < n) idxs.
+Proof.
+  induction idxs as [|i rest IH]; intros seen H; [constructor|].
+  cbn [v0_index_loop] in H.
+  destruct (existsb (Z.eqb i) seen || (n <=? i)) eqn:E; [discriminate|].
+  b2p. constructor; [lia|]. eapply IH; exact H.
+Qed.
+
+Lemma v0_addr_loop_np fuel : forall addrs idxs outs i seen,
+  0 <= i -> len addrs = len idxs ->
+  Forall (fun k => 0 <= k < len outs) idxs ->
+  np (v0_addr_loop fuel addrs idxs outs i seen).
+Proof.
+  induction fuel as [|f IH]; intros addrs idxs outs i seen Hi Hl Hf; cbn [v0_addr_loop]; [reflexivity|].
+  destruct (Z.ltb_spec i (len addrs)); [|reflexivity].
+  destruct (idx_ok addrs i) as [a Ha]; [lia|]. rewrite Ha. cbn [bind].
+  destruct (existsb (Z.eqb a) seen); [reflexivity|].
+  destruct (idx_ok idxs i) as [k Hk]; [lia|]. rewrite Hk. cbn [bind].
+  pose proof (proj1 (Forall_forall _ _) Hf k (idx_in _ _ _ Hk)) as Hb. cbn beta in Hb.
+  destruct (idx_ok outs k) as [o Ho]; [lia|]. rewrite Ho. cbn [bind].
+  destruct (negb (fst o =? 75)); [reflexivity|].
+  destruct (a =? 0); [reflexivity|].
+  apply IH; try assumption; lia.
+Qed.
+
+Lemma v0_amount_loop_np fuel : forall amounts idxs outs minfee i,
+  0 <= i -> len amounts = len idxs ->
+  Forall (fun k => 0 <= k < len outs) idxs ->
+  np (v0_amount_loop fuel amounts idxs outs minfee i).
+Proof.
+  induction fuel as [|f IH]; intros amounts idxs outs minfee i Hi Hl Hf; cbn [v0_amount_loop]; [reflexivity|].
+  destruct (Z.ltb_spec i (len amounts)); [|reflexivity].
+  destruct (idx_ok amounts i) as [a Ha]; [lia|]. rewrite Ha. cbn [bind].
+  destruct (a <? 0); [reflexivity|].
+  destruct (idx_ok idxs i) as [k Hk]; [lia|]. rewrite Hk. cbn [bind].
+  pose proof (proj1 (Forall_forall _ _) Hf k (idx_in _ _ _ Hk)) as Hb. cbn beta in Hb.
+  destruct (idx_ok outs k) as [o Ho]; [lia|]. rewrite Ho. cbn [bind].
+  destruct (i64 (snd o - minfee) <? a); [reflexivity|].
+  apply IH; try assumption; lia.
+Qed.
+
+(* OutputIndexes are uint64 values *)
+Lemma crosschain_v0_np is_payload addrs idxs amounts outs minfee total_in :
+  Forall (fun k => 0 <= k) idxs ->
+  np (crosschain_v0 is_payload addrs idxs amounts outs minfee total_in).
+Proof.
+  intros Hp. unfold crosschain_v0.
+  destruct (negb is_payload); [reflexivity|].
+  destruct ((len addrs =? 0) || (len outs <? len addrs) || negb (len addrs =? len amounts) ||
+            negb (len amounts =? len idxs)) eqn:E; [reflexivity|].
+  destruct (v0_index_loop (len outs) idxs []) eqn:El; [|reflexivity]. cbn [negb].
+  apply v0_index_loop_bound in El.
+  assert (Forall (fun k => 0 <= k < len outs) idxs) as Hf.
+  { apply Forall_forall. intros k Hk.
+    pose proof (proj1 (Forall_forall _ _) Hp k Hk). pose proof (proj1 (Forall_forall _ _) El k Hk).
+    cbn beta in *. lia. }
+  b2p.
+  apply np_bind; [apply v0_addr_loop_np; [lia|lia|exact Hf]|]. intros r _.
+  destruct (negb r); [reflexivity|].
+  apply np_bind; [apply v0_amount_loop_np; [lia|lia|exact Hf]|]. intros r' _.
+  destruct (negb r'); reflexivity.
+Qed.
+
+(* ReturnSideChainDepositCoin: a transaction found in the chain store was
+   validated when it was stored: its first input spends an existing output and
+   (V0) its payload's output indexes are within its outputs *)
+Definition deposit_wf (tx : deposit_tx) : Prop :=
+  (forall i0 refouts, idx (d_inputs tx) 0 = Ok i0 -> snd i0 = Some refouts -> 0 <= fst i0 < len refouts) /\
+  Forall (fun k => 0 <= k < len (d_outs tx)) (d_idxs tx).
+
+Lemma dep_amount_v0_np idxs : forall outs side acc,
+  Forall (fun k => 0 <= k < len outs) idxs -> np (dep_amount_v0 idxs outs side acc).
+Proof.
+  induction idxs as [|k rest IH]; intros outs side acc Hf; cbn [dep_amount_v0]; [reflexivity|].
+  inversion Hf as [|? ? Hk Hr]; subst.
+  destruct (idx_ok outs k) as [o Ho]; [lia|]. rewrite Ho. cbn [bind].
+  destruct (negb (fst (fst o) =? side)); apply IH; exact Hr.
+Qed.
+
+Lemma return_deposit_output_np out_ph out_value fee dup dep addr_ok side :
+  (forall tx, dep = Some tx -> deposit_wf tx) ->
+  np (return_deposit_output out_ph out_value fee dup dep addr_ok side).
+Proof.
+  intros Hwf. unfold return_deposit_output.
+  destruct dup; [reflexivity|]. destruct dep as [tx|]; [|reflexivity].
+  destruct (Hwf tx eq_refl) as [Hin Hidx].
+  destruct (Z.eqb_spec (len (d_inputs tx)) 0); [reflexivity|].
+  destruct (idx_ok (d_inputs tx) 0) as [i0 H0]; [pose proof (len_nonneg (d_inputs tx)); lia|].
+  rewrite H0. cbn [bind].
+  destruct (snd i0) as [refouts|] eqn:Er; [|reflexivity].
+  destruct (idx_ok refouts (fst i0)) as [ro Hro]; [eapply Hin; [exact H0|exact Er]|].
+  rewrite Hro. cbn [bind].
+  destruct (negb (out_ph =? ro)); [reflexivity|]. destruct (negb addr_ok); [reflexivity|].
+  apply np_bind.
+  - destruct (d_pver tx =? 0).
+    + destruct (negb (d_is_tcca tx)); [reflexivity|].
+      apply np_bind; [apply dep_amount_v0_np; exact Hidx|]. intros; reflexivity.
+    + destruct (d_pver tx =? 1); [destruct (negb (d_is_tcca tx)); reflexivity|reflexivity].
+  - intros amt _. destruct amt; [|reflexivity].
+    destruct (negb (i64 (out_value + fee) =? z)); reflexivity.
+Qed.
 
 (* ---------------------------------------------------------------- composition *)
 
